@@ -6,6 +6,7 @@ package main
 
 import (
 	"encoding/json"
+	goerrors "errors"
 	"flag"
 	"fmt"
 	"go/ast"
@@ -16,6 +17,10 @@ import (
 	"sort"
 	"strconv"
 	"strings"
+
+	ht "github.com/ogen-go/ogen/http"
+	"github.com/ogen-go/ogen/ogenerrors"
+	"github.com/ogen-go/ogen/validate"
 )
 
 func fail(format string, a ...any) {
@@ -56,6 +61,95 @@ func callName(c *ast.CallExpr) string {
 
 func leanStr(s string) string { return strconv.Quote(s) }
 
+// walkCalls visits the call expressions of fn in source order; a call of a function declared in the same file
+// (plain identifier) is followed at the call site, once per function on the current path
+func walkCalls(f *ast.File, fn *ast.FuncDecl, onPath map[string]bool, visit func(c *ast.CallExpr)) {
+	if fn == nil || fn.Body == nil {
+		return
+	}
+	ast.Inspect(fn.Body, func(n ast.Node) bool {
+		c, ok := n.(*ast.CallExpr)
+		if !ok {
+			return true
+		}
+		visit(c)
+		if id, ok := c.Fun.(*ast.Ident); ok && !onPath[id.Name] {
+			if callee := findFunc(f, id.Name); callee != nil {
+				onPath[id.Name] = true
+				walkCalls(f, callee, onPath, visit)
+				delete(onPath, id.Name)
+			}
+		}
+		return true
+	})
+}
+
+// stringBindings: identifier ↦ the string literals it ranges over or is declared as (range over a composite
+// literal of strings, package-level var/const of a string or a list of strings)
+func stringBindings(f *ast.File) map[string][]string {
+	out := map[string][]string{}
+	lits := func(e ast.Expr) []string {
+		switch x := e.(type) {
+		case *ast.BasicLit:
+			if x.Kind == token.STRING {
+				s, _ := strconv.Unquote(x.Value)
+				return []string{s}
+			}
+		case *ast.CompositeLit:
+			var r []string
+			for _, el := range x.Elts {
+				if bl, ok := el.(*ast.BasicLit); ok && bl.Kind == token.STRING {
+					s, _ := strconv.Unquote(bl.Value)
+					r = append(r, s)
+				}
+			}
+			return r
+		}
+		return nil
+	}
+	named := map[string][]string{}
+	ast.Inspect(f, func(n ast.Node) bool {
+		switch x := n.(type) {
+		case *ast.ValueSpec:
+			for i, nm := range x.Names {
+				if i < len(x.Values) {
+					if l := lits(x.Values[i]); l != nil {
+						named[nm.Name] = l
+						out[nm.Name] = l
+					}
+				}
+			}
+		case *ast.AssignStmt:
+			if len(x.Lhs) == 1 && len(x.Rhs) == 1 {
+				if id, ok := x.Lhs[0].(*ast.Ident); ok {
+					if l := lits(x.Rhs[0]); l != nil {
+						named[id.Name] = l
+						out[id.Name] = l
+					}
+				}
+			}
+		}
+		return true
+	})
+	ast.Inspect(f, func(n ast.Node) bool {
+		rs, ok := n.(*ast.RangeStmt)
+		if !ok || rs.Value == nil {
+			return true
+		}
+		v, ok := rs.Value.(*ast.Ident)
+		if !ok {
+			return true
+		}
+		if l := lits(rs.X); l != nil {
+			out[v.Name] = l
+		} else if id, ok := rs.X.(*ast.Ident); ok && named[id.Name] != nil {
+			out[v.Name] = named[id.Name]
+		}
+		return true
+	})
+	return out
+}
+
 func leanList(xs []string) string {
 	q := make([]string, len(xs))
 	for i, x := range xs {
@@ -72,24 +166,13 @@ func factsCLI(repo string) (string, int) {
 		fail("cmd/ogen/main.go: func generate not found")
 	}
 	interesting := map[string]string{"ogen.Parse": "Parse", "gen.NewGenerator": "NewGenerator", "os.ReadDir": "ReadDir", "cleanDir": "cleanDir", "os.MkdirAll": "MkdirAll", ".WriteSource": "WriteSource", "g.WriteSource": "WriteSource", "os.Remove": "Remove", "os.RemoveAll": "RemoveAll", "os.WriteFile": "WriteFile", "os.Create": "Create"}
-	type ev struct {
-		pos  token.Pos
-		name string
-	}
-	var evs []ev
-	ast.Inspect(gen.Body, func(n ast.Node) bool {
-		if c, ok := n.(*ast.CallExpr); ok {
-			if nm, ok := interesting[callName(c)]; ok {
-				evs = append(evs, ev{c.Pos(), nm})
-			}
-		}
-		return true
-	})
-	sort.Slice(evs, func(i, j int) bool { return evs[i].pos < evs[j].pos })
+	// calls in execution-text order, helpers of the same file inlined at their call site
 	var order []string
-	for _, e := range evs {
-		order = append(order, e.name)
-	}
+	walkCalls(f, gen, map[string]bool{"generate": true}, func(c *ast.CallExpr) {
+		if nm, ok := interesting[callName(c)]; ok {
+			order = append(order, nm)
+		}
+	})
 	for _, need := range []string{"Parse", "NewGenerator", "ReadDir", "cleanDir", "WriteSource"} {
 		found := false
 		for _, o := range order {
@@ -108,21 +191,26 @@ func factsCLI(repo string) (string, int) {
 	var suffixes, prefixes []string
 	skipsDirs := false
 	var removers []string
-	ast.Inspect(cd.Body, func(n ast.Node) bool {
-		c, ok := n.(*ast.CallExpr)
-		if !ok {
-			return true
-		}
+	// string literals an identifier may stand for: `for _, x := range [...]string{…}` / a package-level list
+	bound := stringBindings(f)
+	walkCalls(f, cd, map[string]bool{"cleanDir": true}, func(c *ast.CallExpr) {
 		switch callName(c) {
 		case "strings.HasSuffix", "strings.HasPrefix":
 			if len(c.Args) == 2 {
-				if lit, ok := c.Args[1].(*ast.BasicLit); ok && lit.Kind == token.STRING {
-					s, _ := strconv.Unquote(lit.Value)
-					if callName(c) == "strings.HasSuffix" {
-						suffixes = append(suffixes, s)
-					} else {
-						prefixes = append(prefixes, s)
+				var vals []string
+				switch a := c.Args[1].(type) {
+				case *ast.BasicLit:
+					if a.Kind == token.STRING {
+						s, _ := strconv.Unquote(a.Value)
+						vals = []string{s}
 					}
+				case *ast.Ident:
+					vals = bound[a.Name]
+				}
+				if callName(c) == "strings.HasSuffix" {
+					suffixes = append(suffixes, vals...)
+				} else {
+					prefixes = append(prefixes, vals...)
 				}
 			}
 		case "f.IsDir":
@@ -130,8 +218,9 @@ func factsCLI(repo string) (string, int) {
 		case "os.Remove", "os.RemoveAll":
 			removers = append(removers, callName(c))
 		}
-		return true
 	})
+	sort.Strings(suffixes)
+	sort.Strings(prefixes)
 	if len(suffixes) == 0 || len(prefixes) == 0 {
 		fail("cmd/ogen/main.go cleanDir(): no HasSuffix/HasPrefix literals found")
 	}
@@ -511,92 +600,28 @@ func factsTmpl(repo string) (string, int) {
 
 // errors: the HTTP status each ogenerrors error type reports (Code methods) and the special cases of
 // ogenerrors.ErrorCode, as net/http constant names
+// errors: observed, not read — the extractor is linked against /repo's ogenerrors, so the statuses are what the
+// code of the working tree answers (a rewrite of ErrorCode that keeps its answers keeps these facts)
 func factsErrors(repo string) (string, int) {
-	status := map[string]int{"StatusUnauthorized": 401, "StatusBadRequest": 400, "StatusInternalServerError": 500, "StatusNotImplemented": 501, "StatusUnsupportedMediaType": 415, "StatusNotFound": 404, "StatusMethodNotAllowed": 405, "StatusForbidden": 403, "StatusUnprocessableEntity": 422}
-	lit := func(e ast.Expr) (int, bool) {
-		if se, ok := e.(*ast.SelectorExpr); ok {
-			if x, ok := se.X.(*ast.Ident); ok && x.Name == "http" {
-				v, ok := status[se.Sel.Name]
-				return v, ok
-			}
-		}
-		if bl, ok := e.(*ast.BasicLit); ok {
-			v, err := strconv.Atoi(bl.Value)
-			return v, err == nil
-		}
-		return 0, false
-	}
 	type kv struct {
 		typ  string
 		code int
 	}
-	var codes []kv
-	files, _ := filepath.Glob(filepath.Join(repo, "ogenerrors", "*.go"))
-	sort.Strings(files)
-	var defaultCode, notImpl, ctype = -1, -1, -1
-	for _, fpath := range files {
-		if strings.HasSuffix(fpath, "_test.go") {
-			continue
-		}
-		_, f := parseFile(fpath)
-		for _, d := range f.Decls {
-			fd, ok := d.(*ast.FuncDecl)
-			if !ok || fd.Body == nil {
-				continue
-			}
-			if fd.Name.Name == "Code" && fd.Recv != nil && len(fd.Recv.List) == 1 {
-				recv := ""
-				switch t := fd.Recv.List[0].Type.(type) {
-				case *ast.StarExpr:
-					if id, ok := t.X.(*ast.Ident); ok {
-						recv = id.Name
-					}
-				case *ast.Ident:
-					recv = t.Name
-				}
-				if len(fd.Body.List) == 1 {
-					if rs, ok := fd.Body.List[0].(*ast.ReturnStmt); ok && len(rs.Results) == 1 {
-						if v, ok := lit(rs.Results[0]); ok {
-							codes = append(codes, kv{recv, v})
-							continue
-						}
-					}
-				}
-				fail("ogenerrors: Code() of %s is not a single `return <status>`", recv)
-			}
-			if fd.Name.Name == "ErrorCode" && fd.Recv == nil {
-				// code = <default>; switch { case errors.Is(err, ht.ErrNotImplemented): code = …; case errors.As(err, &ctError): code = … }
-				ast.Inspect(fd.Body, func(n ast.Node) bool {
-					as, ok := n.(*ast.AssignStmt)
-					if !ok || len(as.Lhs) != 1 || len(as.Rhs) != 1 {
-						return true
-					}
-					if id, ok := as.Lhs[0].(*ast.Ident); !ok || id.Name != "code" {
-						return true
-					}
-					v, ok := lit(as.Rhs[0])
-					if !ok {
-						return true
-					}
-					switch {
-					case defaultCode < 0:
-						defaultCode = v
-					case notImpl < 0:
-						notImpl = v
-					case ctype < 0:
-						ctype = v
-					}
-					return true
-				})
-			}
-		}
+	codes := []kv{
+		{"DecodeParamsError", (&ogenerrors.DecodeParamsError{}).Code()},
+		{"DecodeRequestError", (&ogenerrors.DecodeRequestError{}).Code()},
+		{"SecurityError", (&ogenerrors.SecurityError{}).Code()},
 	}
-	if len(codes) < 3 || defaultCode < 0 || notImpl < 0 || ctype < 0 {
-		fail("ogenerrors: expected ≥ 3 Code() methods and the three assignments of ErrorCode (found %d, %d %d %d)", len(codes), defaultCode, notImpl, ctype)
+	defaultCode := ogenerrors.ErrorCode(goerrors.New("some handler error"))
+	notImpl := ogenerrors.ErrorCode(ht.ErrNotImplemented)
+	ctype := ogenerrors.ErrorCode(&validate.InvalidContentTypeError{ContentType: "x/y"})
+	// the same answers through a wrapping error
+	if ogenerrors.ErrorCode(fmt.Errorf("wrapped: %w", ht.ErrNotImplemented)) != notImpl || ogenerrors.ErrorCode(fmt.Errorf("wrapped: %w", &validate.InvalidContentTypeError{ContentType: "x/y"})) != ctype {
+		fail("ogenerrors.ErrorCode answers differently for a wrapped error")
 	}
 	sort.Slice(codes, func(i, j int) bool { return codes[i].typ < codes[j].typ })
 	var sb strings.Builder
-	sb.WriteString("/-! GENERATED by harness/cmd/extract from ogenerrors/*.go — do not edit. -/\nnamespace Facts.Errors\n")
+	sb.WriteString("/-! GENERATED by harness/cmd/extract from ogenerrors (observed on the linked package) — do not edit. -/\nnamespace Facts.Errors\n")
 	sb.WriteString("/-- (error type, status its Code() method returns) -/\ndef codes : List (String × Nat) := [")
 	for i, c := range codes {
 		if i > 0 {
